@@ -256,7 +256,7 @@ fn fuzz_stage(ctx: &mut Ctx, exe: &Path) {
     }
     let workers: u64 = std::env::var("VP_FUZZ_WORKERS").ok().and_then(|s| s.parse().ok()).unwrap_or(tier.pick(8, 16));
     let runs: u64 = std::env::var("VP_FUZZ_RUNS").ok().and_then(|s| s.parse().ok()).unwrap_or(tier.pick(20_000, 300_000));
-    let budget = std::time::Duration::from_secs(tier.pick(600, 5400));
+    let budget = std::time::Duration::from_secs(tier.pick(600, 2700));
     // libFuzzer measures memory with getrusage's peak RSS, and on Linux a
     // spawned process starts with the peak of the process that spawned it: the
     // limit has to sit above this process's own high-water mark
@@ -276,7 +276,11 @@ fn fuzz_stage(ctx: &mut Ctx, exe: &Path) {
             .arg(format!("-seed={}", seed))
             .arg("-max_len=400")
             .arg("-len_control=0")
-            .arg("-timeout=30")
+            // no per-input alarm: libFuzzer's timeout handler allocates inside a
+            // signal handler and deadlocks when it interrupts malloc (seen when
+            // the whole sandbox was paused for half a minute); a worker that
+            // really hangs is ended by the wall-clock budget below instead
+            .arg("-timeout=0")
             .arg(format!("-rss_limit_mb={}", rss_limit))
             .arg("-reload=1")
             .arg(format!("-dict={}", verif_dir().join("harness/fuzz/dict.txt").display()))
